@@ -60,13 +60,54 @@ func (e *Exec) Run() {
 		for k, v := range e.params {
 			env.vars[k] = v
 		}
+		for _, gi := range e.contract.GhostInit {
+			st.Ghost[gi.Name] = env.eval(gi.E)
+		}
 		for _, rq := range e.contract.Requires {
 			st.assume(env.evalBool(rq.E))
+		}
+		if impl := e.implContract(); impl != nil {
+			ienv := e.implEnv(st, fr, impl, false)
+			for _, rq := range impl.Requires {
+				st.assume(ienv.evalBool(rq.E))
+			}
+		}
+		for _, ci := range e.contract.CbInv {
+			st.assume(env.evalBool(ci.E))
 		}
 	}
 	e.pre = st.clone()
 	e.emitCover(st, "cover:requires-satisfiable", "")
 	e.explore(st)
+}
+
+func (e *Exec) implContract() *Contract {
+	if e.contract == nil || e.contract.Implements == "" {
+		return nil
+	}
+	c := e.prog.contracts.Funcs[e.contract.Implements]
+	if c == nil {
+		panic(contractError{"implements: unknown contract " + e.contract.Implements})
+	}
+	return c
+}
+
+// implEnv binds the parameter names of a function-type contract to this
+// unit's parameters by position.
+func (e *Exec) implEnv(st *State, fr *Frame, impl *Contract, pos bool) *Env {
+	env := &Env{e: e, st: st, old: e.pre, fr: fr, vars: map[string]Value{}, pos: pos, pkgName: impl.Pkg}
+	if e.pre == nil {
+		env.old = st
+	}
+	for i, n := range impl.ParamNames {
+		if i < len(e.fn.Params) {
+			env.vars[n] = fr.Vals[e.fn.Params[i]]
+			if v, ok := e.params[e.fn.Params[i].Name()]; ok {
+				env.vars[n] = v
+			}
+		}
+	}
+	return env
 }
 
 func (e *Exec) resultNames() []string {
@@ -97,6 +138,23 @@ func (e *Exec) finishPath(st *State, fr *Frame, res Value, in *ssa.Return) {
 		}
 	} else if res != nil && len(names) == 1 && names[0] != "" && names[0] != "_" {
 		env.vars[names[0]] = res
+	}
+	if impl := e.implContract(); impl != nil {
+		ienv := e.implEnv(st, fr, impl, true)
+		ienv.bindResult(res)
+		for _, gs := range impl.GhostSet {
+			st.Ghost[gs.Name] = ienv.eval(gs.E)
+		}
+		for i, en := range impl.Ensures {
+			e.emit(st, fmt.Sprintf("implements(%s)/ensures#%d", impl.Key, i+1), "ensures", en.Labels, ienv.evalBool(en.E), fmt.Sprintf("%s:%d", en.File, en.Line))
+		}
+	}
+	for i, ci := range e.contract.CbInv {
+		name := fmt.Sprintf("cbinv-preserved#%d", i+1)
+		if len(ci.Labels) > 0 {
+			name = fmt.Sprintf("cbinv-preserved[%s]", strings.Join(ci.Labels, ","))
+		}
+		e.emit(st, name, "invariant", ci.Labels, env.evalBool(ci.E), fmt.Sprintf("%s:%d", ci.File, ci.Line))
 	}
 	seen := map[string]int{}
 	site := strings.TrimPrefix(e.ordinalName(in, "return"), "safe:")
@@ -135,7 +193,7 @@ func (e *Exec) checkFrame(st *State, fr *Frame, env *Env) {
 	var allowedLocs []string
 	var allowedRanges []rng
 	allowedGhost := map[string]bool{}
-	pre := &Env{e: e, st: e.pre, old: e.pre, fr: fr, vars: env.vars, pos: true}
+	pre := &Env{e: e, st: e.pre, old: e.pre, fr: fr, vars: env.vars, pos: true, isOld: true}
 	for _, a := range c.Assigns {
 		switch x := a.E.(type) {
 		case *ESlice:
@@ -182,6 +240,22 @@ func (e *Exec) checkFrame(st *State, fr *Frame, env *Env) {
 				allowedLocs = append(allowedLocs, "obj:"+l.Obj.Name+":"+pathKey(l.Path))
 			}
 		case *EIdent:
+			if strings.HasPrefix(x.Name, "g_") {
+				allowedGhost[x.Name] = true
+				continue
+			}
+			isFV := false
+			for _, fv := range e.fn.FreeVars {
+				if fv.Name() == x.Name {
+					if p, ok := fr.Vals[fv].(VPtr); ok && p.Loc != nil && p.Loc.Obj != nil {
+						allowedLocs = append(allowedLocs, "obj:"+p.Loc.Obj.Name+":"+pathKey(p.Loc.Path))
+						isFV = true
+					}
+				}
+			}
+			if isFV {
+				continue
+			}
 			if p, ok := pre.eval(x).(VPtr); ok && p.Loc != nil && p.Loc.Obj != nil {
 				allowedLocs = append(allowedLocs, "obj:"+p.Loc.Obj.Name+":"+pathKey(p.Loc.Path))
 			}
@@ -289,6 +363,10 @@ func (e *Exec) checkFrame(st *State, fr *Frame, env *Env) {
 				continue
 			}
 			was, had := e.pre.Ghost[key]
+			if !had && strings.HasPrefix(key, "g_") {
+				was = e.ghostGlobal(e.pre, key)
+				had = true
+			}
 			if !had {
 				// initial symbolic value
 				obj, name := splitGhostKey(key)
